@@ -804,7 +804,13 @@ class Context(object):
         elif not ismacro(value):
             raise ValueError('"%s" does not implement the macro interface' % key)
 
-        self.contexts[0][macroName(value)] = value
+        name = macroName(value)
+        # A global definition takes effect at every grouping level (TeX:
+        # \gdef, \global): local definitions of the same name in the
+        # open groups must not keep shadowing it.
+        for context in self.contexts[1:]:
+            dict.pop(context, name, None)
+        self.contexts[0][name] = value
 
     __setitem__ = addGlobal
 
